@@ -3705,8 +3705,9 @@ func recv(n *node) {
 	i := n.findex
 	l := n.level
 	// In an assignment, the received value is set in the assigned variable, field or
-	// element, which keeps its identity. Otherwise it replaces the content of the frame location.
-	isAssign := n.anc.kind == assignStmt
+	// element, which keeps its identity. In a return statement, it is set in the result
+	// of the function. Otherwise it replaces the content of the frame location.
+	isAssign := n.anc.kind == assignStmt || n.anc.kind == returnStmt
 	set := func(f *frame, r reflect.Value) {
 		data := getFrame(f, l).data
 		if isAssign && data[i].CanSet() {
